@@ -398,6 +398,7 @@ def verify(c: Contract, variant=None, deadline_s=600):
         return list(obs.values()), info
     try:
         mod, f = (None, None) if is_lemma else load_target(c)
+        c.mod = mod
     except Exception as e:
         o = ob("target", "guard")
         _merge(o, "undecided", "cannot load target: %s: %s" % (type(e).__name__, str(e)[:200]))
@@ -580,6 +581,9 @@ def replay(c: Contract, variant, o: Obligation, as_float=False):
     try:
         f = None
         if c.module is not None:
+            import importlib
+
+            c.mod = importlib.import_module(c.module)
             f = loader.real(c.module, c.qualname)
             if c.unwrap:
                 f = loader.unwrap(f)
